@@ -241,13 +241,7 @@ pub fn inspect(p: &Packet, hostile: &mut bool) -> Result<(), Fail> {
 }
 
 pub fn inspect_bytes(b: &[u8], case: &mut Case) -> Result<bool, Fail> {
-    let p = match parse(b)? {
-        Ok(p) => p,
-        Err(_) => {
-            case.class("rejected");
-            return Ok(false);
-        }
-    };
+    let Some(p) = parse_if_accepted(b, case) else { return Ok(false) };
     case.class("accepted");
     let mut hostile = false;
     inspect(&p, &mut hostile)?;
